@@ -203,6 +203,8 @@ class _Env(Env):
         acts = list(self.conn.actions(3, 3, 3)) if self.conn else []
         if self.conn2 is not None:
             acts.extend(self.conn2.actions(3, 3, 3))
+        if getattr(self, 'conn0', None) is not None:
+            acts.extend(self.conn0.actions(3, 3, 3))
         live = [f for f in self.paused if not f.done()]
         self.paused = live
         if live:
@@ -224,10 +226,25 @@ class _Sim(object):
         self.ctx.probe(name)
 
 
-def run_wsgi(ctx, stack_factory, path, headers=(), method='GET'):
-    """stack_factory(pause) -> Stack. Returns (exchange, stack)."""
+def run_wsgi(ctx, stack_factory, path, headers=(), method='GET', pre=None, unreadable_body=False):
+    """stack_factory(pause) -> Stack. Returns (exchange, stack). `pre` = path of a
+    request served first on the same app (lane P); `unreadable_body`: the request
+    announces a body whose read() fails (the application never reads it)."""
+    from detsim.wsgi_sim import SimInput
     st = stack_factory(None)
-    env = make_environ(method=method, path=path, headers=list(headers), body_input=io.BytesIO(b''))
+    if pre is not None:
+        env0 = make_environ(method='GET', path=pre, headers=[('X-Req', 'P')], body_input=io.BytesIO(b''))
+        ex0 = WsgiExchange(ctx)
+        if ex0.call(st.app, env0):
+            ex0.consume()
+        st.pre_status = ex0.status_code
+    if unreadable_body:
+        inp = SimInput(ctx, b'0123456789', b'', limit=10)
+        inp.raise_at_call = 0
+        env = make_environ(method=method, path=path, headers=list(headers), body_input=inp,
+                           content_length=10, content_type='application/octet-stream')
+    else:
+        env = make_environ(method=method, path=path, headers=list(headers), body_input=io.BytesIO(b''))
     ex = WsgiExchange(ctx)
     if ex.call(st.app, env):
         ex.consume()
@@ -235,7 +252,7 @@ def run_wsgi(ctx, stack_factory, path, headers=(), method='GET'):
 
 
 def run_asgi(ctx, stack_factory, path, headers=(), method='GET', concurrent_pause=True,
-             fail_send_at=(), send_suspends=None, second=None):
+             fail_send_at=(), send_suspends=None, second=None, pre=None, unreadable_body=False):
     """Returns (conn, stack, finished, app_exc, loop_sig). `second` = (path,
     setup(stack)) runs a second request concurrently on the same app (lane B)."""
     ch = ctx.ch
@@ -253,9 +270,17 @@ def run_asgi(ctx, stack_factory, path, headers=(), method='GET', concurrent_paus
     scope = http_scope(method=method, path=path, headers=list(headers))
     if send_suspends is None:
         send_suspends = bool(ch.draw(2, 'send_suspends'))
-    conn = Conn(sim, 'http', scope, body_events([]), HttpMonitor(),
+    if unreadable_body:
+        scope['headers'] = scope['headers'] + [(b'content-length', b'10'),
+                                               (b'content-type', b'application/octet-stream')]
+        events0 = [{'type': 'http.request', 'body': b'01234', 'more_body': True}]
+    else:
+        events0 = body_events([])
+    conn = Conn(sim, 'http', scope, events0, HttpMonitor(),
                 recv_suspends=bool(ch.draw(2, 'recv_suspends')),
                 send_suspends=send_suspends, lost_mode='oserror')
+    if unreadable_body:
+        conn.fail_recv_at = frozenset([1])     # the next receive() fails: connection reset
     conn.fail_send_at = frozenset(fail_send_at)
     env.conn = conn
     result = {}
@@ -274,7 +299,15 @@ def run_asgi(ctx, stack_factory, path, headers=(), method='GET', concurrent_paus
         except Exception as ex:
             result[key] = ex
 
+    conn0 = None
+    if pre is not None:
+        scope0 = http_scope(method='GET', path=pre, headers=[('X-Req', 'P')])
+        conn0 = Conn(sim, 'http', scope0, body_events([]), HttpMonitor(), lost_mode='oserror', name='P')
+        env.conn0 = conn0
+
     async def driver():
+        if conn0 is not None:
+            await one(conn0, scope0, 'exc0')
         if conn2 is None:
             await one(conn, scope, 'exc')
             return
